@@ -10,7 +10,7 @@ use std::sync::{atomic::AtomicUsize, Arc, Mutex};
 
 const LEVELS: [&str; 6] = ["off", "error", "warn", "info", "debug", "trace"];
 
-fn render(doc: &Value, dir: &str) -> Value {
+fn render(doc: &Value, dir: &str, fmt: usize) -> Value {
     let dv = doc["dv"].as_str().unwrap();
     let mut top = Map::new();
     if doc["refresh"] == "30s" {
@@ -69,7 +69,10 @@ fn render(doc: &Value, dir: &str) -> Value {
     }
     let path = format!("{}/x.log", dir);
     let roll = |policy: Value| json!({"kind": "rolling_file", "path": path, "policy": policy});
-    let size = json!({"kind": "size", "limit": "1 kb"});
+    // one kibibyte, spelled differently in each rendering: the built trigger is the same
+    let spelled = ["1 kb", "1kb", "1 KiB", "1024"][fmt % 4];
+    let size = json!({"kind": "size", "limit": spelled});
+    let spelled_w: Value = [json!(1024), json!("1024 b"), json!("1Kb"), json!("1   kib")][fmt % 4].clone();
     let del = json!({"kind": "delete"});
     let win = |extra: Value| {
         let mut m = json!({"kind": "fixed_window", "pattern": format!("{}/x.{{}}.log", dir), "count": 2});
@@ -89,7 +92,7 @@ fn render(doc: &Value, dir: &str) -> Value {
         "file_json" => Some(json!({"kind": "file", "path": path, "encoder": {"kind": "json"}})),
         "file_pat" => Some(json!({"kind": "file", "path": path, "encoder": {"pattern": "{l}|{m}{n}"}})),
         "roll_delete" => Some(roll(json!({"trigger": size, "roller": del}))),
-        "roll_window" => Some(roll(json!({"kind": "compound", "trigger": {"kind": "size", "limit": 1024}, "roller": win(json!({}))}))),
+        "roll_window" => Some(roll(json!({"kind": "compound", "trigger": {"kind": "size", "limit": spelled_w}, "roller": win(json!({}))}))),
         "console" => Some(json!({"kind": "console", "target": "stderr", "tty_only": true})),
         "file_unknown_key" => Some(json!({"kind": "file", "path": path, "colour": true})),
         "file_path_wrong_type" => Some(json!({"kind": "file", "path": 5})),
@@ -178,7 +181,7 @@ fn to_toml(v: &Value) -> toml::Value {
 fn check_format(case: &Value, fmt: usize) -> Option<Value> {
     let scratch = Scratch::new("cfg");
     let dir = scratch.path().to_string_lossy().to_string();
-    let tree = render(&case["doc"], &dir);
+    let tree = render(&case["doc"], &dir, fmt);
     let (ext, text) = match fmt {
         0 => ("yaml", serde_yaml::to_string(&tree).unwrap()),
         // flow-style YAML: JSON text is YAML too (quoted scalars, inline maps and lists)
@@ -278,6 +281,32 @@ fn check_format(case: &Value, fmt: usize) -> Option<Value> {
         let want_pre = if x_variant == "file_trunc" { "" } else { "old\n" };
         if pre != want_pre {
             return fail("append / truncate default of the file appender", json!({"expected": want_pre, "actual": pre}));
+        }
+    }
+    // "equal to the programmatic configuration": the surviving file / rolling appender prints (Debug: path, mode,
+    // encoder, policy with its trigger and roller - the open handle is not part of it) exactly like the one built
+    // through the builders
+    if names.contains(&"x".to_string()) {
+        use log4rs::append::rolling_file::policy::compound::{roll::{delete::DeleteRoller, fixed_window::FixedWindowRoller}, trigger::size::SizeTrigger, CompoundPolicy};
+        let xp = format!("{}/x.log", dir);
+        let twin: Option<Box<dyn log4rs::append::Append>> = match x_variant {
+            "file" => Some(Box::new(log4rs::append::file::FileAppender::builder().build(&xp).unwrap())),
+            "file_json" => Some(Box::new(log4rs::append::file::FileAppender::builder().encoder(Box::new(log4rs::encode::json::JsonEncoder::new())).build(&xp).unwrap())),
+            "file_pat" => Some(Box::new(log4rs::append::file::FileAppender::builder().encoder(Box::new(log4rs::encode::pattern::PatternEncoder::new("{l}|{m}{n}"))).build(&xp).unwrap())),
+            "roll_delete" => Some(Box::new(log4rs::append::rolling_file::RollingFileAppender::builder()
+                .build(&xp, Box::new(CompoundPolicy::new(Box::new(SizeTrigger::new(1024)), Box::new(DeleteRoller::new())))).unwrap())),
+            "roll_window" => Some(Box::new(log4rs::append::rolling_file::RollingFileAppender::builder()
+                .build(&xp, Box::new(CompoundPolicy::new(Box::new(SizeTrigger::new(1024)),
+                    Box::new(FixedWindowRoller::builder().build(&format!("{}/x.{{}}.log", dir), 2).unwrap())))).unwrap())),
+            _ => None,
+        };
+        if let Some(t) = twin {
+            let twin_cfg = log4rs::config::Appender::builder().build("x", t);
+            let loaded = cfg.appenders().iter().find(|a| a.name() == "x").unwrap();
+            let (a, b) = (format!("{:?}", loaded), format!("{:?}", twin_cfg));
+            if a != b {
+                return fail("the loaded appender differs from the one built programmatically", json!({"loaded": a, "programmatic": b}));
+            }
         }
     }
     let logger = match catch(|| log4rs::Logger::new(cfg)) {
